@@ -18,13 +18,15 @@ def row(m):
 total = len(metas); caught = sum(1 for m in metas if m.get("caught_by"))
 out = []
 out.append("## Appendix E — seeded defects (sensitivity)\n")
-out.append(f"""Three rounds of 18 seeded defects each (two per claimed property per round),
+out.append(f"""Four rounds of 18 seeded defects each (two per claimed property per round),
 every one written by a fresh sub-agent that was given only the text of one
 property and its own scratch git worktree of `/repo` under `/tmp` — nothing
-from `/verif`. Rounds 2 and 3 additionally received one-line summaries of the
+from `/verif`. Rounds 2 to 4 additionally received one-line summaries of the
 defects already produced for that property (so as not to repeat them); round 3
 was asked for defects in shared / lower-level code, defects that depend on a
-rare *value*, and defects that depend on the order or repetition of API calls.
+rare *value*, and defects that depend on the order or repetition of API calls;
+round 4 was told that the effort under evaluation is a randomised simulation
+and asked for defects such sampling is unlikely to stumble on.
 For each defect I re-ran in the scratch worktree: the demonstration on clean
 HEAD (passes), the existing suite with the patch (`cargo test --offline --lib
 --tests`, plus `cargo +nightly test --features nightly --lib` for
@@ -35,7 +37,7 @@ registered quick check(s), and reverted — `tools/run_seeded.py` (results in ea
 quick tier. The last column says what the machinery needed in order to catch
 the defect when it did not as it stood at the time the defect was written.
 """)
-for r in (1, 2, 3):
+for r in (1, 2, 3, 4):
     ms = [m for m in metas if rnd(m) == r]
     if not ms: continue
     out.append(f"\n### Round {r}\n")
